@@ -21,7 +21,7 @@ CHECKS = {
         technique='bounded symbolic execution of the generator (symx + z3) composed with the transpiled Rust checker; concrete replays on the real binary',
     ),
     'C03': dict(
-        text='ProofExp.serialize (unmodified, both optimise settings, in-memory sinks) is executed symbolically on generated modules: import graphs (none, chain, diamond), declaration lists and claim choices by forking, every id symbolic (one level with ids up to 1000 so the 255/256 boundary is inside the domain). The emitted gamma and claim streams are decoded by an independent implementation of the documented machine and must equal the declaration in order, for both settings; symbol numbering must be injective; an unencodable id must raise. The ">256 symbols" clause is a separate concrete test (256 / 257 / 300 symbols through the real bytes()).',
+        text='ProofExp.serialize (unmodified, both optimise settings, in-memory sinks) is executed symbolically on generated modules: import graphs (none, chain, diamond, ...), declaration lists and claim choices by forking, every id symbolic (one level with ids up to 1000 so the 255/256 boundary is inside the domain). The emitted gamma and claim streams are decoded by an independent implementation of the documented machine and must equal the declaration in order, for both settings; symbol numbering must be injective; an unencodable id must raise. The ">256 symbols" clause is a separate concrete test (256 / 257 / 300 symbols through the real bytes()).',
         note='Trusted: z3, symx, vf/refm.py as decoder, my stand-in for bytes() (same range contract). Bounds: <= 2/3 axioms of <= 3 nodes per module, <= 2 claims, <= 4 modules.',
         design='DESIGN.md 5 C03',
     ),
@@ -90,7 +90,7 @@ CHECKS = {
     ),
     'C18': dict(
         text='Selected repo modules (proof, interpreters, counting/optimising interpreters, Metamath converter and translator) are loaded from their current source through an AST rewrite that routes every iteration site over a set/frozenset through a hook; the hook picks the iteration order by forking (all n! orders for <= 4 elements at up to two deviating iteration events per run; globally consistent re-orderings - reversed, three pseudo-hash orders - for generated small chain theories and generated multi-claim reflexivity theories with frequent memoisation-score ties). The six output streams must equal those under the natural order on every path. "What was serialised before" is enumerated exhaustively over a menu (incl. two modules with the same theory and different proofs, and two modules with equal stack items and different notation tables) with up to two earlier serialisations, each sequence in a fresh child process, compared with the target serialised alone.',
-        note='Trusted: the rewrite (iteration sites: for, comprehensions, list/tuple/sorted/min/max/enumerate/zip/iter/join arguments), Python dict order being insertion order. Not a solver query: bounded exhaustive exploration of orders with the symx engine; no sampling of hash seeds. Bounds: <= 2 deviating iteration events; sets > 4 elements in three orders; histories <= 2 over a 6-module menu.',
+        note='Trusted: the rewrite (iteration sites: for, comprehensions, list/tuple/sorted/min/max/enumerate/zip/iter/join arguments), Python dict order being insertion order. Not a solver query: bounded exhaustive exploration of orders with the symx engine; no sampling of hash seeds. Bounds: <= 2 deviating iteration events; sets > 4 elements in three orders; histories <= 2 over an 8-module menu (incl. a module that mentions its symbols in another order).',
         design='DESIGN.md 5 C18',
         technique='bounded exhaustive exploration (symx forking) of set iteration orders injected by an import-time AST rewrite; exhaustive history enumeration in fresh processes',
     ),
@@ -100,6 +100,25 @@ CHECKS = {
         design='DESIGN.md 5 C19',
         technique='z3 theory of strings on the format strings read from the live objects; bounded exhaustive execution of the real printers',
     ),
+}
+
+# additions after the seeded-change rounds (DESIGN.md 8): appended to the level text of the check
+EXTRA = {
+    'C01': ' A fifth lemma, L-inst, covers terms whose occurrences of one metavariable carry different constraint annotations: an accepted Instantiate (partial or total, schematic plugs, ids in either order) respects the constraints of every occurrence and yields the textbook instance.',
+    'C02': ' One-rule modules also instantiate axioms that contain pending substitutions (the plug alone may mention the instantiated metavariable).',
+    'C03': ' Import graphs also: transitive import through an axiom-less module, module filled after it was imported; axioms containing partial instantiations in any key order; the expected publication is built from the harness\'s own lists, never read back from the module objects. Concrete (not symbolic) boundary tests: 256/257/300 symbols, and the memoisation plan around the 256 memory slots.',
+    'C04': ' Loads use the label the toolkit\'s own callers pass (str(term)); a macro step saves two different terms that print alike and loads both.',
+    'C05': ' The mutated programs include one with the same claim twice and one with a mu over a pending element substitution.',
+    'C06': ' Full-profile levels (every constructor, both kinds of variable in pattern and value) run in both tiers; on the Python side the judgement is also taken after the same judgement on sibling patterns (other constructors, shifted ids, rotated notation keys, flipped arguments), in every rotation.',
+    'C07': ' Also: the Quantifier schema instantiated with binder-notation values, and generalization after the same rule was applied to sibling premises (an asymmetric binder notation with both key orders).',
+    'C08': ' Whole modules go through ProofExp.serialize plain and optimised (the counting pass and the memoising serialiser share one claim list), plus a concrete test of the memoisation plan at the 256-slot boundary.',
+    'C09': ' History levels ask one prover object several questions (the formula itself first or last, its negation, four fixed formulas; clause lists likewise) before the one that is checked.',
+    'C11': ' History levels run the same operation on sibling patterns first (every rotation) and throw the results away.',
+    'C12': ' Also a non-linear schema (phi0 -> phi0) against a pattern paired with its own expansion, and the whole battery after the same battery on sibling patterns.',
+    'C13': ' Also: arbitrary (also unsolvable) two-equation systems for the soundness of match(); soundness and completeness after sibling problems were solved first, in every rotation.',
+    'C14': ' Loads use str(term) labels; the look-alike macro step of C04 is part of the alphabets.',
+    'C15': ' The theorem is placed at top level, in a block, and in a block with a $d naming a variable it does not mention, with and without an earlier theorem over the same variables decoded by the same converter.',
+    'C19': ' Pairs are also printed by a printer with no notation registered (the fallback rendering, which is str()), and applications that came about as instances of schematic applications are compared with the direct application with two arguments exchanged.',
 }
 
 NOT_YET = {
@@ -124,7 +143,7 @@ def main() -> None:
                 'evidence_file': f'/verif/evidence/{pid}.json',
                 'replay_cmd_template': f'./check {pid} --replay {{path}}',
                 'engine': 'symx',
-                'level_claimed': {'category': 'model_checking', 'text': c['text'], 'design_ref': c['design']},
+                'level_claimed': {'category': 'model_checking', 'text': c['text'] + EXTRA.get(pid, ''), 'design_ref': c['design']},
                 'level_note': c['note'],
                 'technique': c.get('technique', TECH),
             }
